@@ -25,6 +25,7 @@ in which two honest members finish on different keys.
 Helper lemmas: `Proofs/DkgStep.lean`, `DkgResp.lean`, `DkgScript.lean`, `DkgFinish.lean`,
 `DkgSafety.lean`, `DkgMember.lean`.
 -/
+import DosModel.Gen.VssFacts
 import DosModel.Proofs.DkgMember
 import DosModel.Model.DkgNet
 import Mathlib.Algebra.Order.Field.Rat
@@ -35,6 +36,357 @@ namespace Dos.Props.C05
 open Dos Dos.Vss Dos.Dkg
 
 variable {F G : Type} [Field F] [AddCommGroup G] [Module F G] [DecidableEq F] [DecidableEq G]
+
+/-- regenerated fact (`go/extract/vssfacts` → `Gen/VssFacts.lean`, on every check run): the ordered statement
+skeletons of the code `Model/VssSym.lean`, `Model/Dkg.lean`, `Model/DkgSession.lean` transcribe for this property –
+what a verifier checks before it approves (`ProcessEncryptedDeal`, `VerifyDeal`, `validT`, `sessionID`), the
+signature check of `verifyResponse` BEFORE `addResponse`, dkg `ProcessDeal` / `ProcessResponse` / `DistKeyShare`
+(the error of `pub.Add` is propagated), the stages `getAndProcessDeals` (`return` after `ErrResponseNoApproval`,
+`continue` after a `ProcessDeal` error) and `getAndProcessResponses` (`return` after a `ProcessResponse` error),
+the sender binding (`Loop` calls `stampSender` before `handlePeerMsg`; `exchangePub` compares `SenderId` with
+`groupIds[Index]`) and the duplicate-key rejection of `genDistKeyGenerator`. A change to any of them must be
+re-modelled. -/
+theorem c05_code_shape :
+    Gen.VssFacts.processEncryptedDeal = [
+      "0| func ProcessEncryptedDeal(e *EncryptedDeal) (*Response, error)",
+      "1| d, err := v.decryptDeal(e)",
+      "1| if err != nil",
+      "2| return nil, err",
+      "1| if d.SecShare == nil || d.SecShare.V == nil",
+      "2| return nil, errors.New(\"vss: deal without a share\")",
+      "1| if d.SecShare.I != v.index",
+      "2| return nil, errors.New(\"vss: verifier got wrong index from deal\")",
+      "1| t := int(d.T)",
+      "1| sid, err := sessionID(v.suite, v.dealer, v.verifiers, d.Commitments, t)",
+      "1| if err != nil",
+      "2| return nil, err",
+      "1| if v.aggregator == nil",
+      "2| v.aggregator = newAggregator(v.suite, v.dealer, v.verifiers, d.Commitments, t, d.SessionID)",
+      "1| r := &Response{ SessionID: sid, Index: uint32(v.index), Status: StatusApproval, }",
+      "1| if err = v.VerifyDeal(d, true); err != nil",
+      "2| r.Status = StatusComplaint",
+      "1| if err == errDealAlreadyProcessed",
+      "2| return nil, err",
+      "1| if r.Signature, err = schnorr.Sign(v.suite, v.longterm, r.Hash(v.suite)); err != nil",
+      "2| return nil, err",
+      "1| if err = v.aggregator.addResponse(r); err != nil",
+      "2| return nil, err",
+      "1| return r, nil"] ∧
+    Gen.VssFacts.verifyDeal = [
+      "0| func VerifyDeal(d *Deal, inclusion bool) error",
+      "1| if d == nil || d.SecShare == nil || d.SecShare.V == nil",
+      "2| return errors.New(\"vss: deal without a share value\")",
+      "1| if a.deal != nil && inclusion",
+      "2| return errDealAlreadyProcessed",
+      "1| if a.deal == nil",
+      "2| a.commits = d.Commitments",
+      "2| a.sid = d.SessionID",
+      "2| a.deal = d",
+      "1| if !validT(int(d.T), a.verifiers)",
+      "2| return errors.New(\"vss: invalid t received in Deal\")",
+      "1| if !bytes.Equal(a.sid, d.SessionID)",
+      "2| return errors.New(\"vss: find different sessionIDs from Deal\")",
+      "1| sid, err := sessionID(a.suite, a.dealer, a.verifiers, d.Commitments, int(d.T))",
+      "1| if err != nil",
+      "2| return err",
+      "1| if !bytes.Equal(sid, d.SessionID)",
+      "2| return errors.New(\"vss: session id of the deal does not match its dealer, verifiers, commitments and threshold\")",
+      "1| fi := d.SecShare",
+      "1| if fi.I < 0 || fi.I >= len(a.verifiers)",
+      "2| return errors.New(\"vss: index out of bounds in Deal\")",
+      "1| fig := a.suite.Point().Base().Mul(fi.V, nil)",
+      "1| commitPoly := share.NewPubPoly(a.suite, nil, d.Commitments)",
+      "1| pubShare := commitPoly.Eval(fi.I)",
+      "1| if !fig.Equal(pubShare.V)",
+      "2| return errors.New(\"vss: share does not verify against commitments in Deal\")",
+      "1| return nil"] ∧
+    Gen.VssFacts.validT = [
+      "0| func validT(t int, verifiers []kyber.Point) bool",
+      "1| return t >= 2 && t <= len(verifiers) && int(uint32(t)) == t"] ∧
+    Gen.VssFacts.sessionID = [
+      "0| func sessionID(suite suites.Suite, dealer kyber.Point, verifiers, commitments []kyber.Point, t int) ([]byte, error)",
+      "1| h := suite.Hash()",
+      "1| _, _ = dealer.MarshalTo(h)",
+      "1| for _, v := range verifiers",
+      "2| _, _ = v.MarshalTo(h)",
+      "1| for _, c := range commitments",
+      "2| _, _ = c.MarshalTo(h)",
+      "1| _ = binary.Write(h, binary.LittleEndian, uint32(t))",
+      "1| return h.Sum(nil), nil"] ∧
+    Gen.VssFacts.verifyResponse = [
+      "0| func verifyResponse(r *Response) error",
+      "1| if !bytes.Equal(r.SessionID, a.sid)",
+      "2| return errors.New(\"vss: receiving inconsistent sessionID in response\")",
+      "1| pub, ok := findPub(a.verifiers, r.Index)",
+      "1| if !ok",
+      "2| return errors.New(\"vss: index out of bounds in response\")",
+      "1| if err := schnorr.Verify(a.suite, pub, r.Hash(a.suite), r.Signature); err != nil",
+      "2| return err",
+      "1| return a.addResponse(r)"] ∧
+    Gen.VssFacts.addResponse = [
+      "0| func addResponse(r *Response) error",
+      "1| if _, ok := findPub(a.verifiers, r.Index); !ok",
+      "2| return errors.New(\"vss: index out of bounds in Complaint\")",
+      "1| if _, ok := a.responses[r.Index]; ok",
+      "2| return errors.New(\"vss: already existing response from same origin\")",
+      "1| a.responses[r.Index] = r",
+      "1| return nil"] ∧
+    Gen.VssFacts.dkgProcessDeal = [
+      "0| func ProcessDeal(dd *Deal) (*Response, error)",
+      "1| pub, ok := findPub(d.participants, dd.Index)",
+      "1| if !ok",
+      "2| return nil, errors.New(\"dkg: dist deal out of bounds index\")",
+      "1| if _, ok := d.verifiers[dd.Index]; ok",
+      "2| return nil, errors.New(\"dkg: already received dist deal from same index\")",
+      "1| ver, err := vss.NewVerifier(d.suite, d.long, pub, d.participants)",
+      "1| if err != nil",
+      "2| return nil, err",
+      "1| d.verifiers[dd.Index] = ver",
+      "1| resp, err := ver.ProcessEncryptedDeal(dd.Deal)",
+      "1| if err != nil",
+      "2| return nil, err",
+      "1| d.verifiers[dd.Index].UnsafeSetResponseDKG(dd.Index, vss.StatusApproval)",
+      "1| return &Response{ Index: dd.Index, Response: resp, }, nil"] ∧
+    Gen.VssFacts.dkgProcessResponse = [
+      "0| func ProcessResponse(resp *Response) (*Justification, error)",
+      "1| if resp == nil || resp.Response == nil",
+      "2| return nil, errors.New(\"dkg: response message without a response\")",
+      "1| v, ok := d.verifiers[resp.Index]",
+      "1| if !ok",
+      "2| return nil, errors.New(\"dkg: complaint received but no deal for it\")",
+      "1| if err := v.ProcessResponse(resp.Response); err != nil",
+      "2| return nil, err",
+      "1| if resp.Index != uint32(d.index)",
+      "2| return nil, nil",
+      "1| j, err := d.dealer.ProcessResponse(resp.Response)",
+      "1| if err != nil",
+      "2| return nil, err",
+      "1| if j == nil",
+      "2| return nil, nil",
+      "1| if err := v.ProcessJustification(j); err != nil",
+      "2| return nil, err",
+      "1| return &Justification{ Index: d.index, Justification: j, }, nil"] ∧
+    Gen.VssFacts.distKeyShare = [
+      "0| func DistKeyShare() (*DistKeyShare, error)",
+      "1| if !d.Certified()",
+      "2| return nil, errors.New(\"dkg: distributed key not certified\")",
+      "1| sh := d.suite.Scalar().Zero()",
+      "1| var pub *share.PubPoly",
+      "1| var err error",
+      "1| d.qualIter(func(i uint32, v *vss.Verifier) bool {…})",
+      "2| func(i uint32, v *vss.Verifier) bool",
+      "3| deal := v.Deal()",
+      "3| s := deal.SecShare.V",
+      "3| sh = sh.Add(sh, s)",
+      "3| poly := share.NewPubPoly(d.suite, d.suite.Point().Base(), deal.Commitments)",
+      "3| if pub == nil",
+      "4| pub = poly",
+      "4| return true",
+      "3| pub, err = pub.Add(poly)",
+      "3| return err == nil",
+      "1| if err != nil",
+      "2| return nil, err",
+      "1| _, commits := pub.Info()",
+      "1| return &DistKeyShare{ Commits: commits, Share: &share.PriShare{ I: int(d.index), V: sh, }, PrivatePoly: d.dealer.PrivatePoly().Coefficients(), }, nil"] ∧
+    Gen.VssFacts.getAndProcessDeals = [
+      "0| func getAndProcessDeals(ctx context.Context, logger log.Logger, dkgc chan *DistKeyGenerator, dealsc chan []interface{}, sessionID string) (dkgOut chan *DistKeyGenerator, out chan interface{}, errc chan error)",
+      "1| dkgOut = make(chan *DistKeyGenerator)",
+      "1| out = make(chan interface{})",
+      "1| errc = make(chan error)",
+      "1| go func() {…}()",
+      "2| func()",
+      "3| var dkg *DistKeyGenerator",
+      "3| var ok bool",
+      "3| defer close(dkgOut)",
+      "3| defer close(out)",
+      "3| defer close(errc)",
+      "3| select",
+      "4| case <-ctx.Done():",
+      "4| case dkg, ok = <-dkgc:",
+      "5| if !ok",
+      "6| return",
+      "3| if dkg == nil",
+      "4| return",
+      "3| select",
+      "4| case <-ctx.Done():",
+      "4| case deals, ok := <-dealsc:",
+      "5| if ok",
+      "6| var resps []*Response",
+      "6| for _, d := range deals",
+      "7| deal, ok := d.(*Deal)",
+      "7| if !ok",
+      "8| err := &DKGError{err: errors.Errorf(\"Casting Deal failed for GID %s : %w\", sessionID, ErrCasting)}",
+      "8| reportErr(ctx, errc, err)",
+      "8| return",
+      "7| resp, err := dkg.ProcessDeal(deal)",
+      "7| if err != nil",
+      "8| err = &DKGError{err: errors.Errorf(\"ProcessDeal failed for GID %s : %w\", sessionID, err)}",
+      "8| reportErr(ctx, errc, err)",
+      "8| continue",
+      "7| resp.SessionId = sessionID",
+      "7| if vss.StatusApproval != resp.Response.Status",
+      "8| err = &DKGError{err: errors.Errorf(\"ProcessDeal failed for GID %s : %w\", sessionID, ErrResponseNoApproval)}",
+      "8| reportErr(ctx, errc, err)",
+      "8| return",
+      "7| resps = append(resps, resp)",
+      "6| select",
+      "7| case <-ctx.Done():",
+      "8| return",
+      "7| case out <- &Responses{SessionId: sessionID, Response: resps}:",
+      "6| select",
+      "7| case <-ctx.Done():",
+      "7| case dkgOut <- dkg:",
+      "1| return"] ∧
+    Gen.VssFacts.getAndProcessResponses = [
+      "0| func getAndProcessResponses(ctx context.Context, logger log.Logger, dkgc chan *DistKeyGenerator, respsc chan []interface{}, sessionID string) (out chan *DistKeyGenerator, errc chan error)",
+      "1| out = make(chan *DistKeyGenerator)",
+      "1| errc = make(chan error)",
+      "1| go func() {…}()",
+      "2| func()",
+      "3| defer close(out)",
+      "3| defer close(errc)",
+      "3| var dkg *DistKeyGenerator",
+      "3| var ok bool",
+      "3| select",
+      "4| case <-ctx.Done():",
+      "4| case dkg, ok = <-dkgc:",
+      "5| if !ok",
+      "6| return",
+      "3| if dkg == nil",
+      "4| return",
+      "3| select",
+      "4| case <-ctx.Done():",
+      "4| case resps, ok := <-respsc:",
+      "5| if ok",
+      "6| for _, r := range resps",
+      "7| resp, ok := r.(*Response)",
+      "7| if !ok",
+      "8| err := &DKGError{err: errors.Errorf(\"getAndProcessResponses failed for GID %s : %w\", sessionID, ErrCasting)}",
+      "8| reportErr(ctx, errc, err)",
+      "8| return",
+      "7| if _, err := dkg.ProcessResponse(resp); err != nil",
+      "8| err := &DKGError{err: errors.Errorf(\"ProcessResponse failed for GID %s : %w\", sessionID, err)}",
+      "8| reportErr(ctx, errc, err)",
+      "8| return",
+      "6| select",
+      "7| case <-ctx.Done():",
+      "7| case out <- dkg:",
+      "1| return"] ∧
+    Gen.VssFacts.stampSender = [
+      "0| func stampSender(content *PublicKey, sender []byte)",
+      "1| if content != nil && content.Publickey != nil",
+      "2| content.Publickey.SenderId = sender"] ∧
+    Gen.VssFacts.loopPeerMsg = [
+      "0| func Loop()",
+      "1| switch content := msg.Msg.Message.(type)",
+      "2| case *PublicKey:",
+      "3| err := d.p.Reply(context.Background(), msg.Sender, msg.RequestNonce, content)",
+      "3| if err != nil",
+      "3| stampSender(content, msg.Sender)",
+      "3| handlePeerMsg(sessionPubKeys, sessionReqPubs, d.p, content.SessionId, content)",
+      "2| case *Deal:",
+      "3| err := d.p.Reply(context.Background(), msg.Sender, msg.RequestNonce, content)",
+      "3| if err != nil",
+      "3| handlePeerMsg(sessionDeals, sessionReqDeals, d.p, content.SessionId, content)",
+      "2| case *Responses:",
+      "3| err := d.p.Reply(context.Background(), msg.Sender, msg.RequestNonce, content)",
+      "3| if err != nil",
+      "3| resps := content.Response",
+      "3| for _, resp := range resps",
+      "4| handlePeerMsg(sessionResps, sessionReResps, d.p, content.SessionId, resp)"] ∧
+    Gen.VssFacts.exchangePub = [
+      "0| func exchangePub(ctx context.Context, logger log.Logger, selfPubc chan interface{}, peerPubc chan []interface{}, p p2p.P2PInterface, groupIds [][]byte, sessionID string) (out chan []*PublicKey, errc chan error)",
+      "1| out = make(chan []*PublicKey)",
+      "1| errc = make(chan error)",
+      "1| go func() {…}()",
+      "2| func()",
+      "3| defer close(out)",
+      "3| defer close(errc)",
+      "3| var partPubs []*PublicKey",
+      "3| select",
+      "4| case <-ctx.Done():",
+      "5| return",
+      "4| case resp, ok := <-selfPubc:",
+      "5| if !ok",
+      "6| return",
+      "5| pubkey, ok := resp.(*PublicKey)",
+      "5| if !ok",
+      "6| err := &DKGError{err: errors.Errorf(\"casting PublicKey failed for GID %s : %w\", sessionID, ErrCasting)}",
+      "6| reportErr(ctx, errc, err)",
+      "6| return",
+      "5| partPubs = append(partPubs, pubkey)",
+      "3| for",
+      "4| select",
+      "5| case <-ctx.Done():",
+      "6| return",
+      "5| case resps, ok := <-peerPubc:",
+      "6| if !ok",
+      "7| return",
+      "6| for _, resp := range resps",
+      "7| pubkey, ok := resp.(*PublicKey)",
+      "7| if !ok",
+      "8| err := &DKGError{err: errors.Errorf(\"casting PublicKey failed for GID %s : %w\", sessionID, ErrCasting)}",
+      "8| reportErr(ctx, errc, err)",
+      "8| return",
+      "7| if pubkey == nil || pubkey.Publickey == nil || int(pubkey.Index) >= len(groupIds) || !bytes.Equal(pubkey.Publickey.SenderId, groupIds[pubkey.Index])",
+      "8| err := &DKGError{err: errors.Errorf(\"exchangePub failed for GID %s : %w\", sessionID, ErrForeignPubKey)}",
+      "8| reportErr(ctx, errc, err)",
+      "8| return",
+      "7| partPubs = append(partPubs, pubkey)",
+      "4| if len(partPubs) == len(groupIds)",
+      "5| select",
+      "6| case <-ctx.Done():",
+      "6| case out <- partPubs:",
+      "5| return",
+      "1| return"] ∧
+    Gen.VssFacts.genDistKeyGenerator = [
+      "0| func genDistKeyGenerator(ctx context.Context, logger log.Logger, secrc chan kyber.Scalar, partPubs chan []*PublicKey, numOfPubkeys int, suite suites.Suite, sessionID string) (out chan *DistKeyGenerator, errc chan error)",
+      "1| out = make(chan *DistKeyGenerator)",
+      "1| errc = make(chan error)",
+      "1| go func() {…}()",
+      "2| func()",
+      "3| defer close(out)",
+      "3| defer close(errc)",
+      "3| select",
+      "4| case <-ctx.Done():",
+      "4| case sec, ok := <-secrc:",
+      "5| if ok",
+      "6| select",
+      "7| case <-ctx.Done():",
+      "7| case pubs, ok := <-partPubs:",
+      "8| if ok",
+      "9| pubPoints := make([]kyber.Point, numOfPubkeys)",
+      "9| for _, pubkey := range pubs",
+      "10| if pubkey == nil || pubkey.Publickey == nil || pubkey.Index >= uint32(len(pubPoints))",
+      "11| err := &DKGError{err: errors.Errorf(\"genDistKeyGenerator failed for GID %s : %w\", sessionID, errors.New(\"public key message without key or with index out of range\"))}",
+      "11| reportErr(ctx, errc, err)",
+      "11| return",
+      "10| if pubPoints[pubkey.Index] != nil",
+      "11| err := &DKGError{err: errors.Errorf(\"genDistKeyGenerator failed for GID %s : %w\", sessionID, ErrDupPubKeyIndex)}",
+      "11| reportErr(ctx, errc, err)",
+      "11| return",
+      "10| pubPoints[pubkey.Index] = suite.Point()",
+      "10| if err := pubPoints[pubkey.Index].UnmarshalBinary(pubkey.Publickey.Binary); err != nil",
+      "11| err := &DKGError{err: errors.Errorf(\"UnmarshalBinary failed for GID %s : %w\", sessionID, err)}",
+      "11| reportErr(ctx, errc, err)",
+      "11| return",
+      "10| for k, other := range pubPoints",
+      "11| if other != nil && uint32(k) != pubkey.Index && other.Equal(pubPoints[pubkey.Index])",
+      "12| err := &DKGError{err: errors.Errorf(\"genDistKeyGenerator failed for GID %s : %w\", sessionID, ErrDupPubKey)}",
+      "12| reportErr(ctx, errc, err)",
+      "12| return",
+      "9| dkg, err := NewDistKeyGenerator(suite, sec, pubPoints, numOfPubkeys/2+1)",
+      "9| if err != nil",
+      "10| err := &DKGError{err: errors.Errorf(\"NewDistKeyGenerator failed for GID %s : %w\", sessionID, err)}",
+      "10| reportErr(ctx, errc, err)",
+      "10| return",
+      "9| select",
+      "10| case <-ctx.Done():",
+      "10| case out <- dkg:",
+      "9| return",
+      "1| return"] :=
+  ⟨rfl, rfl, rfl, rfl, rfl, rfl, rfl, rfl, rfl, rfl, rfl, rfl, rfl, rfl, rfl⟩
+
 
 /-- **1. `inconsistent_never_approved`.**  A verifier that has not yet received a deal answers an
 encrypted deal with an approval only if the deal it opened has a valid threshold, the session id
